@@ -44,7 +44,7 @@ impl Property for C12 {
         "C12"
     }
     fn rule(&self) -> String {
-        "sessions over a root r.td that includes i.td, where disk texts and editor buffers differ observably (each variant of i.td declares a differently named class, each variant of r.td uses one buffer class and the disk class, so outline and 'class not found' diagnostics reveal which text was analysed). Events: open/change of r.td or i.td with one of two buffer variants (a change of an unopened document is an open), close of either document (the disk is the truth again; checked at the next analysed step), a touch of an unrelated third document (root of a workspace without r.td and i.td), a change of r.td to a text without its include, and didSave of either document (no effect on which text is the truth; the disk keeps differing from the buffer, as after an external rewrite): every sequence of length <= 4 (thorough <= 5) over the 4 (document, variant) events, 2 closes, 2 saves and the 2 workspace-leaving events exhaustively (plus family reopened-documents: 1..3 further edits, a close, a re-open and an edit of the same document, with per-document version numbers that start over at every didOpen), each with i.td present on disk, with i.td never saved (no file on disk), and with an i.td that includes r.td back (include cycle through every edited document) and - sequences of length <= 3 (thorough <= 4) - in a workspace directory the editor reaches through a symbolic link, and while another program rewrites both files on disk after every analysed step (buffer variant 0 then being the text on disk at that moment: a document opened unmodified), and in a directory whose name has characters (`+`, `[`, `]`, a blank) that the client escapes in its URIs and URL libraries do not. Reference session model: texts = disk overlaid by the buffers of opened documents, root = last touched document. After every step the last published diagnostics of every file of the model's workspace and the documentSymbol answer of every open document in it must equal a fresh ide-level analysis over the model's texts. distinct = digest of the event sequence; non-trivial = a step at which an open included document's buffer differs from disk while the other document is (re)analysed".into()
+        "sessions over a root r.td that includes i.td, where disk texts and editor buffers differ observably (each variant of i.td declares a differently named class, each variant of r.td uses one buffer class and the disk class, so outline and 'class not found' diagnostics reveal which text was analysed). Events: open/change of r.td or i.td with one of two buffer variants (a change of an unopened document is an open), close of either document (the disk is the truth again; checked at the next analysed step), a touch of an unrelated third document (root of a workspace without r.td and i.td), a change of r.td to a text without its include, and didSave of either document (no effect on which text is the truth; the disk keeps differing from the buffer, as after an external rewrite): every sequence of length <= 4 (thorough <= 5) over the 4 (document, variant) events, 2 closes, 2 saves and the 2 workspace-leaving events exhaustively (plus family reopened-documents: 1..3 further edits, a close, a re-open and an edit of the same document, with per-document version numbers that start over at every didOpen), each with i.td present on disk, with i.td never saved (no file on disk), and with an i.td that includes r.td back (include cycle through every edited document) and - sequences of length <= 3 (thorough <= 4) - in a workspace directory the editor reaches through a symbolic link, and while another program rewrites both files on disk after every analysed step (buffer variant 0 then being the text on disk at that moment: a document opened unmodified), and in a directory whose name has characters (`+`, `[`, `]`, a blank) that the client escapes in its URIs and URL libraries do not, and with i.td in a directory of its own below INCLUDE_DIR, included by a path that only INCLUDE_DIR resolves (a library file that is opened and edited). Reference session model: texts = disk overlaid by the buffers of opened documents, root = last touched document. After every step the last published diagnostics of every file of the model's workspace and the documentSymbol answer of every open document in it must equal a fresh ide-level analysis over the model's texts. distinct = digest of the event sequence; non-trivial = a step at which an open included document's buffer differs from disk while the other document is (re)analysed".into()
     }
     fn assumptions(&self) -> Vec<String> {
         vec!["the disk is modified during a session only in the external-writes flavour (then after an analysed step, never during one); the model takes the last touched document as root because that is what didOpen/didChange do; a close triggers no analysis, so its effect is observed at the next open/change".into()]
@@ -96,6 +96,11 @@ impl Property for C12 {
                     // the same session in a directory whose name has characters that editors escape in URIs and
                     // URL libraries do not (`+`, `[`, `]`), with a client that escapes them: one file, two spellings
                     if len <= symlinked_upto && !emit(json!({"kind": "buffer-session", "events": ev, "escaped_uris": true})) {
+                        return;
+                    }
+                    // the same session with i.td in a directory of its own below INCLUDE_DIR (a library that comes
+                    // with the tools): r.td includes it by a path that only INCLUDE_DIR resolves
+                    if len <= symlinked_upto && !emit(json!({"kind": "buffer-session", "events": ev, "library": true})) {
                         return;
                     }
                     let mut k = len;
@@ -162,16 +167,27 @@ impl Property for C12 {
             crate::lspc::TempWs::new_symlinked()
         } else if case["escaped_uris"].as_bool() == Some(true) {
             crate::lspc::TempWs::new_special()
+        } else if case["library"].as_bool() == Some(true) {
+            match crate::lspc::TempWs::new_library(&["i.td"]) {
+                Some(tw) => tw,
+                None => return Verdict::Skip("no-include-dir"),
+            }
         } else {
             crate::lspc::TempWs::new()
         };
         let Some(mut s) = LspSession::start_in(tw) else { return Verdict::Skip("initialize-failed") };
         let no_disk_i = case["no_disk_i"].as_bool() == Some(true);
         let cyclic = case["cyclic"].as_bool() == Some(true);
+        // (with i.td in the library, r.td names it with the library's directory)
+        let lib = s.tw.library_subdir().map(|d| d.to_string());
+        let in_lib = |t: String| match &lib {
+            Some(d) => t.replace("include \"i.td\"", &format!("include \"{d}/i.td\"")),
+            None => t,
+        };
         let disk_i = if cyclic { DISK_I_CYCLIC } else { DISK_I };
-        s.tw.write("r.td", DISK_R);
+        s.tw.write("r.td", &in_lib(DISK_R.to_string()));
         let mut model: BTreeMap<String, String> = BTreeMap::new();
-        model.insert("r.td".into(), DISK_R.into());
+        model.insert("r.td".into(), in_lib(DISK_R.to_string()));
         if !no_disk_i {
             s.tw.write("i.td", disk_i);
             model.insert("i.td".into(), disk_i.into());
@@ -232,6 +248,7 @@ impl Property for C12 {
                 buffer_text_in(doc, b, cyclic)
             };
             let doc = if b == 4 { 0 } else { doc };
+            let text = if doc == 0 { in_lib(text) } else { text };
             if doc == 0 && s.opened.contains("i.td") && model.get("i.td") != disk.get("i.td") {
                 nontrivial = true;
             }
@@ -266,7 +283,7 @@ impl Property for C12 {
                     (true, true) => "include \"r.td\"\nclass DiskJ { int a = 1; }\n".to_string(),
                     (false, _) => disk_i.to_string(),
                 };
-                for (n, t) in [("r.td", new_r.to_string()), ("i.td", new_i)] {
+                for (n, t) in [("r.td", in_lib(new_r.to_string())), ("i.td", new_i)] {
                     s.tw.write(n, &t);
                     disk.insert(n.to_string(), t.clone());
                     if !s.opened.contains(n) {
